@@ -199,9 +199,10 @@ Inductive group_sim (phi : list cluster) (cn : list cnode) : group -> cgroup -> 
     nth_error phi k = Some c -> nth_error cn (fst c) = Some nd -> class_ok cls rt (cn_body nd) ->
     group_sim phi cn (GRow k cls) (CGRow (fst c) (match snd c with Some j => [j] | None => [] end) rt)
 | GS_noop ps : Forall (fun p => c_cname (snd p) = []) ps -> group_sim phi cn (GNoOp ps None) (CGNoOp ps None)
-| GS_noop_router ps k k1 :
+| GS_noop_router ps k k1 nd r :
     Forall (fun p : nat * econd => c_cname (snd p) = []) ps ->
-    nth_error phi k = Some (k1, None) -> group_sim phi cn (GNoOp ps (Some k)) (CGNoOp ps (Some k1))
+    nth_error phi k = Some (k1, None) -> nth_error cn k1 = Some nd -> cn_body nd = BSwitch SPlain r ->
+    group_sim phi cn (GNoOp ps (Some k)) (CGNoOp ps (Some k1))
 | GS_block ms : group_sim phi cn (GBlock ms) (CGBlock ms).
 
 (* the reference node a row group stands for (each reference node is the node of at most one group) *)
@@ -215,5 +216,7 @@ Record Sim (phi : list cluster) (sr : st) (sc : cstate) : Prop := {
   sim_disj : NoDup (flat_map cluster_idx phi);
   sim_groups : Forall2 (group_sim phi (cs_nodes sc)) (s_groups sr) (cs_groups sc);
   sim_ginj : NoDup (flat_map grow_node (s_groups sr));
+  (* the decision node of a no_op carries no action *)
+  sim_acts : forall g ps k n, nth_error (s_groups sr) g = Some (GNoOp ps (Some k)) -> nth_error (s_nodes sr) k = Some n -> rn_actions n = [];
   sim_rowmap : s_rowmap sr = cs_rowmap sc;
   sim_stack : s_stack sr = cs_stack sc }.
